@@ -816,6 +816,7 @@ func stdAmino(cod []byte) byte {
 }
 
 func genC14(c *Ctx) {
+	translateHuge(c)
 	sequtilRound4_14(c)
 	sequtilExtras14(c)
 	// all 64 codons x 8 case patterns
@@ -1075,6 +1076,7 @@ func runTrieHistory(c *Ctx, ops []string, probes []string, kind string) {
 }
 
 func genC15(c *Ctx) {
+	trieFullFanout(c)
 	trieSparse(c)
 	trieExtras(c)
 	// exhaustive histories over {a,b}, strings <= 2 (thorough 3), depth <= 3 (thorough 4)
@@ -1150,6 +1152,7 @@ func genC15(c *Ctx) {
 // ======================= regions =======================
 
 func genC16(c *Ctx) {
+	regionsRound6(c)
 	regionsRound4(c)
 	run := func(starts, ends []int, queries []int, kind string) {
 		var idx *regions.Index
@@ -1322,6 +1325,7 @@ func u64s(v []uint64) string {
 }
 
 func genC17(c *Ctx) {
+	mashRound6(c)
 	mashRound4(c)
 	mashExtras(c)
 	randDNA := func(n int) []byte {
@@ -1740,7 +1744,7 @@ func genTrees(c *Ctx, stops bool) {
 	c.add(Case{Kind: "star", Nontrivial: true, Oracle: o, Note: "star with 19999 children"})
 }
 
-func genC19(c *Ctx) { wideTrees(c); genTrees(c, false); arenaTrees(c) }
+func genC19(c *Ctx) { nestedTraversals(c); polytomies(c); wideTrees(c); genTrees(c, false); arenaTrees(c) }
 
 func genC18Iterators(c *Ctx) {
 	genTrees(c, true)
